@@ -8,7 +8,8 @@
    not exactly the qualifying cells (each once), None/Some is wrong, an entry point panicked
    where no explicit guard of the code applies, or two arms disagree on the maximum value /
    threshold set.  DIFF: the answer differs from the extracted model of that kernel (exact
-   coordinates, exact order of the threshold list) although the property checker passed. *)
+   coordinates of the arg-maximum, bit pattern of the maximum, threshold list as a set) although
+   the property checker passed. *)
 open Maxi_model
 
 (* unary naturals are shared through a growing table: nat (n+1) = S (nat n), so that long
@@ -157,7 +158,8 @@ let check_entry (e : 'v elt) (m : 'v list list) (t : 'v) (domain : bool) (get : 
        let sorted = List.map coord_to_nat (sort_coords l) in
        if domain && not (e.chk_threshold m t sorted) then
          propfail "%s.threshold is not exactly the cells >= t (%d reported)" name (List.length l)
-       else if l <> Lazy.force model_th then diff "%s.threshold order/content differs from the model" name);
+       (* the order of the reported list is unspecified: compared with the model as a set *)
+       else if sort_coords l <> sort_coords (Lazy.force model_th) then diff "%s.threshold differs from the model (as a set)" name);
   (* the three answers together, through the checker proved sound in C07.v (check_C07_sound) *)
   (match obs_opt e.parse (get (name ^ ".max")), obs_opt parse_coord (get (name ^ ".am")),
          obs_list parse_coord (get (name ^ ".th")) with
@@ -220,7 +222,7 @@ let check_striped (e : 'v elt) (m : 'v list list) (t : 'v) (domain : bool) (get 
          let coords = List.map (function Some rc -> rc | None -> (0, 0)) dec in
          let sorted = List.map coord_to_nat (sort_coords coords) in
          if domain && not (e.chk_threshold m t sorted) then propfail "%s.threshold is not exactly the cells >= t" name
-         else if l <> Lazy.force model_th then diff "%s.threshold offsets differ from the model" name
+         else if List.sort compare l <> List.sort compare (Lazy.force model_th) then diff "%s.threshold offsets differ from the model (as a set)" name
        end)
 
 (* linear Scores on a list *)
@@ -259,7 +261,7 @@ let check_linear (e : 'v elt) (l : 'v list) (t : 'v) (domain : bool) (get : stri
    | Ans idx ->
        let sorted = List.map (fun i -> (O, nat_of_int i)) (List.sort compare idx) in
        if domain && not (e.chk_threshold lm t sorted) then propfail "lin.threshold is not exactly the positions >= t"
-       else if idx <> Lazy.force model_th then diff "lin.threshold differs from the model")
+       else if List.sort compare idx <> List.sort compare (Lazy.force model_th) then diff "lin.threshold differs from the model (as a set)")
 
 let arm_of = function "G" -> AGeneric | "S" -> ASse2 | "A" -> AAvx2 | _ -> failwith "arm"
 
@@ -492,6 +494,7 @@ let () =
            match get_in "k" with
            | "f32" -> run_f32 get_in get 32
            | "f16" -> run_f32 get_in get 16
+           | "f48" -> run_f32 get_in get 48
            | "u8" -> run_u8 get_in get
            | "e2e" -> run_e2e get_in get
            | k -> diff "unknown kind %s" k
